@@ -35,14 +35,10 @@ def do_import(name, prop, wt):
         print("no source change in", wt)
         return 1
     open(os.path.join(d, "patch.diff"), "w").write(diff)
+    # kept as written; it is run from the root of a tree (it locates ./middleware
+    # relative to itself or through the worktree path it was written in, which
+    # `verify` rewrites)
     demo = open(os.path.join(wt, "seeded_demo.py")).read()
-    # make the demonstration independent of the worktree it was written in
-    demo = demo.replace(wt, "/repo")
-    hdr = ("# Demonstration written by an independent sub-agent for this seeded change.\n"
-           "# Runs against the tree named by $SEEDED_REPO (default /repo): exit 1 with the\n"
-           "# change applied, exit 0 without it.\n"
-           "import os as _os\n_SEEDED_REPO = _os.environ.get('SEEDED_REPO', '/repo')\n")
-    demo = hdr + demo.replace('"/repo', '_SEEDED_REPO + "').replace("'/repo", "_SEEDED_REPO + '")
     open(os.path.join(d, "demo.py"), "w").write(demo)
     notes = ""
     np_ = os.path.join(wt, "SEEDED_NOTES.md")
@@ -50,7 +46,11 @@ def do_import(name, prop, wt):
         notes = open(np_).read()
         open(os.path.join(d, "NOTES.md"), "w").write(notes.replace(wt, "/repo"))
     meta = {"name": name, "property": prop, "source": "independent sub-agent, given only the "
-            "property text and a scratch worktree", "files": sorted(set(re.findall(
+            "property text and a scratch worktree", "origin_worktree": wt,
+            "how_to_run_demo": "copy demo.py to the root of a checkout of rsk-powhsm as "
+            "seeded_demo.py (replacing the origin_worktree path inside it by that checkout if it "
+            "occurs) and run it with /venv/bin/python: exit 1 with patch.diff applied, 0 without",
+            "files": sorted(set(re.findall(
                 r"^\+\+\+ b/(\S+)", diff, flags=re.M))), "needs_to_manifest": "",
             "verified": {}}
     mp = os.path.join(d, "meta.json")
@@ -83,16 +83,22 @@ def do_verify(name, tier="quick", all_props=False, props=None):
     tmp = scratch_tree()
     res = {}
     try:
-        envd = dict(os.environ, SEEDED_REPO=tmp, PYTHONDONTWRITEBYTECODE="1")
-        rc0, out0 = sh(["/venv/bin/python", os.path.join(d, "demo.py")], env=envd, timeout=600)
+        envd = dict(os.environ, PYTHONDONTWRITEBYTECODE="1")
+        demo_path = os.path.join(tmp, "seeded_demo.py")
+        txt = open(os.path.join(d, "demo.py")).read()
+        if meta.get("origin_worktree"):
+            txt = txt.replace(meta["origin_worktree"], tmp)
+        open(demo_path, "w").write(txt)
+        rc0, out0 = sh(["/venv/bin/python", demo_path], env=envd, timeout=600)
         res["demo_without_change_exit"] = rc0
         rc, out = sh(["git", "-C", tmp, "apply", os.path.join(d, "patch.diff")])
         if rc != 0:
             print("patch does not apply:", out)
             return 1
-        rc1, out1 = sh(["/venv/bin/python", os.path.join(d, "demo.py")], env=envd, timeout=600)
+        rc1, out1 = sh(["/venv/bin/python", demo_path], env=envd, timeout=600)
         res["demo_with_change_exit"] = rc1
         res["demo_with_change_tail"] = out1.strip().splitlines()[-3:]
+        os.unlink(demo_path)
         rc, out = sh(PINNED, cwd=tmp, env=envd)
         m = re.search(r"(\d+) passed(?:, (\d+) errors)?", out)
         res["pinned_tests"] = m.group(0) if m else out[-200:]
